@@ -147,6 +147,11 @@ def build(tier, rng):
         "update": lambda: CryptContext(["sha256_crypt"]).update(sha256_crypt__salt="abcd"),
         "ini": lambda: CryptContext.from_string("[passlib]\nschemes = sha256_crypt\nsha256_crypt__salt = abcd\n"),
         "dict": lambda: CryptContext(["md5_crypt"]).copy(**{"md5_crypt__salt": "abcd"}),
+        "bytes": lambda: CryptContext(["sha256_crypt"], sha256_crypt__salt=b"abcdefgh"),
+        "bytes-all": lambda: CryptContext(["sha256_crypt"], all__salt=b"abcd"),
+        "bytes-update": lambda: CryptContext(["pbkdf2_sha256"]).update(pbkdf2_sha256__salt=b"abcdefgh"),
+        "bytes-category": lambda: CryptContext(["sha256_crypt"], admin__sha256_crypt__salt=b"abcdefgh"),
+        "int": lambda: CryptContext(["sha256_crypt"], sha256_crypt__salt=5),
     }
     for k, fn in attempts.items():
         o = outcome(fn)
